@@ -538,6 +538,7 @@ def server_stage(res, profile, scale, tags, nshards=NSHARDS, max_session=400):
 def check_C05(res):
     q = res.tier == "quick"
     server_stage(res, "resolve", 12 if q else 300, ["C05"])
+    server_stage(res, "size", 1 if q else 30, ["C05"])      # fat delegations with mixed in-bailiwick / sibling name servers
     res.assumptions += ["NS at a wildcard owner is not generated (RFC 4592 4.2 leaves it undefined)",
                         "additional section compared as a set, answer and authority as multisets"]
     return "random catalogs of nested zones (delegations, glue, wildcards, ENTs, CNAME chains 0-10 and loops, classes IN/CH/HS); every name within two labels of the catalog's names x random types; one record = one request/response pair judged by Server!Respond + Resolve!Answer in TLC"
@@ -900,7 +901,7 @@ def check_C32(res):
     run_mc(res, "MC_Snapshot/impl", "MC_Snapshot.tla", "MC_Snapshot_impl.cfg", workers=4)
     run_mc(res, "MC_Snapshot/mutant (shared pointer re-read per section)", "MC_Snapshot.tla", "MC_Snapshot_mutant.cfg", workers=2, expect_violation="OneSnapshot")
     trace_stage(res, ["snapshot", res.seed, 3 if q else 120, 100 if q else 250], "TraceSnapshot", "snapshot", ["C32"], session_start=("Reset",), nshards=min(NSHARDS, 3 if q else NSHARDS))
-    res.assumptions += ["one replacement at a time (as in the daemon, which has a single reloader); catalog and key replacements may overlap each other and any number of handlers",
+    res.assumptions += ["one catalog replacement and one key-set replacement at a time; the two kinds overlap each other (two swapper threads) and any number of handlers",
                         "HMAC-SHA256 computed by the JDK inside TLC (trusted primitive)"]
     return "(M) every interleaving of 2 handlers (snapshot, three sections) and a swapper over 3 generations: one snapshot per response, freshness, and soundness of the window rule used by the trace specification; (V) sessions of 4 query threads x n requests (7 query shapes whose complete answers carry the generation in every section, 40% TSIG-signed with the key generation the client believes current, 30% EDNS, both transports) while a swapper thread replaces catalogs and key sets every 0-400 us and the sink additionally forces a replacement exactly between a handler's snapshot and its use (15% of SnapCatalog/SnapKeys hooks); each response must equal Server!Respond for one (catalog generation, key generation) pair of the handler's windows, MACs recomputed in TLC; the last request of a session, issued after all replacements returned, has singleton windows"
 
